@@ -10,6 +10,8 @@ namespace CtyModel
 namespace Refine
 open NumCmp
 
+variable [EqOracle]
+
 /-! ## vocabulary -/
 
 /-- the one argument shape the builder silently drops: an *exclusive* bound at the
@@ -41,18 +43,24 @@ def Builder.wf (b : Builder) : Bool :=
 /-- `b'` is `b` with another work-in-progress refinement -/
 def Builder.sameBase (b b' : Builder) : Prop := b'.orig = b.orig ∧ b'.marks = b.marks
 
+omit [EqOracle] in
 theorem Builder.sameBase.rfl' (b : Builder) : b.sameBase b := ⟨rfl, rfl⟩
+omit [EqOracle] in
 theorem Builder.sameBase.trans {a b c : Builder} (h1 : a.sameBase b) (h2 : b.sameBase c) : a.sameBase c :=
   ⟨h2.1.trans h1.1, h2.2.trans h1.2⟩
 
+omit [EqOracle] in
 theorem Builder.sameBase_wip (b : Builder) (r : Rfn) : b.sameBase { b with wip := r } := ⟨rfl, rfl⟩
 
+omit [EqOracle] in
 theorem Builder.isDyn_congr {b b' : Builder} (h : b.sameBase b') : b'.isDyn = b.isDyn := by
   unfold Builder.isDyn; rw [h.1]
 
 /-! ## Bool helpers -/
+omit [EqOracle] in
 theorem and_self_of_imp {p q : Bool} (h : p = true → q = true) : p = (p && q) := by
   cases p <;> cases q <;> simp_all
+omit [EqOracle] in
 theorem and_self_of_imp' {p q : Bool} (h : q = true → p = true) : q = (p && q) := by
   cases p <;> cases q <;> simp_all
 
@@ -151,6 +159,7 @@ theorem stepNumUpper_ok {b b' : Builder} {a : NumArg} {incl : Bool} (h : stepNum
     | posInf => exact .inr ⟨_, rfl, h⟩
   · simp at h
 
+omit [EqOracle] in
 theorem stepNotNull_ok {b b' : Builder} (h : stepNotNull b = .ok b') :
     b' = { b with wip := setNull .f b.wip } ∧ b.wip.nullness ≠ .t ∧ (b.orig.isKnown && b.orig.isNull) = false := by
   unfold stepNotNull at h
@@ -162,6 +171,7 @@ theorem stepNotNull_ok {b b' : Builder} (h : stepNotNull b = .ok b') :
       simp at h
       exact ⟨h.symm, h2, by simpa using h1⟩
 
+omit [EqOracle] in
 theorem stepNull_ok {b b' : Builder} (h : stepNull b = .ok b') :
     b' = { b with wip := setNull .t b.wip } ∧ b.wip.nullness ≠ .f ∧ (b.orig.isKnown && !b.orig.isNull) = false := by
   unfold stepNull at h
@@ -173,6 +183,7 @@ theorem stepNull_ok {b b' : Builder} (h : stepNull b = .ok b') :
       simp at h
       exact ⟨h.symm, h2, by simpa using h1⟩
 
+omit [EqOracle] in
 theorem stepLenLower_ok {b b' : Builder} {n : Int} (h : stepLenLower b n = .ok b') :
     ∃ nl lo hi, b.wip = .coll nl lo hi ∧
       ((b' = b ∧ n < lo) ∨ (lo ≤ n ∧ n ≤ hi ∧ b' = { b with wip := .coll nl n hi })) ∧
@@ -206,6 +217,7 @@ theorem stepLenLower_ok {b b' : Builder} {n : Int} (h : stepLenLower b n = .ok b
       exact ⟨cont h rfl, fun hk' => absurd hk' hk⟩
   · simp at h
 
+omit [EqOracle] in
 theorem stepLenUpper_ok {b b' : Builder} {n : Int} (h : stepLenUpper b n = .ok b') :
     ∃ nl lo hi, b.wip = .coll nl lo hi ∧
       ((b' = b ∧ hi < n) ∨ (lo ≤ n ∧ n ≤ hi ∧ b' = { b with wip := .coll nl lo n })) ∧
@@ -239,6 +251,7 @@ theorem stepLenUpper_ok {b b' : Builder} {n : Int} (h : stepLenUpper b n = .ok b
       exact ⟨cont h rfl, fun hk' => absurd hk' hk⟩
   · simp at h
 
+omit [EqOracle] in
 theorem stepPrefix_ok {b b' : Builder} {p : String} (h : stepPrefix b p = .ok b') :
     ∃ n q, b.wip = .str n q ∧ overlapDiffers (bytes q) (bytes p) = false ∧
       b' = { b with wip := .str n (if (bytes p).length > (bytes q).length then p else q) } ∧
